@@ -6,6 +6,7 @@ CONSTANTS
   Canon = TRUE
   SymKinds = {"R", "DV"}
   Kinds = {"R","C","L","DV","DI"}
+  Light = FALSE
   Ws <- WsQuick
 INVARIANT Check
 CHECK_DEADLOCK FALSE
